@@ -61,6 +61,9 @@ Definition entry_fields (ver txid ts : N) (t : ttype) (k : key) (v : option byte
 Definition fields_of (e : entry) : bytes :=
   entry_fields (e_ver e) (e_txid e) (e_ts e) (e_type e) (e_key e) (e_val e).
 
+(* compact notation used by the generated case files: [len] bytes of a little-endian number *)
+Definition B (n : nat) (x : N) : bytes := le_bytes n x.
+
 Definition frame (body : bytes) : bytes := le_bytes 4 (len body) ++ body.
 
 (* ---------------------------------------------------------------- frame parser
@@ -621,32 +624,32 @@ Definition x_open_wstate (mac : bytes -> bytes) :=
    (state, next transaction id, stats) seen by a fresh manager opened on the copy).
    [next] = the crash point whose copy the next cycle continued from. *)
 Definition obs := (list (N * N * N) * state * N * stats)%type.
-Definition probe := (nat * nat * nat * obs)%type.
-Definition cycle := (list op * list probe * (nat * nat * nat))%type.
+Definition probe := (N * nat * nat * obs)%type.
+Definition cycle := (list op * list probe * (N * nat * nat))%type.
 
-Definition probe_eqb (i a b : nat) (p : probe) : bool :=
-  let '(i', a', b', _) := p in Nat.eqb i i' && Nat.eqb a a' && Nat.eqb b b'.
+Definition probe_eqb (i : N) (a b : nat) (p : probe) : bool :=
+  let '(i', a', b', _) := p in (i =? i') && Nat.eqb a a' && Nat.eqb b b'.
 Definition obs_ok (mac : bytes -> bytes) (dc : disk) (o : obs) : bool :=
   let '(ls, st, nxt, sts) := o in
   let r := open_rstate pc_deser mac pc_val_ok pc_dec_changes pc_deser_hdr pc_dec_map dc in
   list_eqb triple_eqb (listing dc) ls && state_eqb (r_state r) st && (r_ctr r + 1 =? nxt) &&
   stats_eqb (r_stats r) sts.
-Definition probes_at (mac : bytes -> bytes) (d : disk) (acts : list action) (idx : nat) (probes : list probe) : bool :=
+Definition probes_at (mac : bytes -> bytes) (d : disk) (acts : list action) (idx : N) (probes : list probe) : bool :=
   forallb (fun p : probe => let '(i, a, b, o) := p in
-           if Nat.eqb i idx then obs_ok mac (exec d (cut acts a b)) o else true) probes.
+           if i =? idx then obs_ok mac (exec d (cut acts a b)) o else true) probes.
 
 (* one pass over the operations: checks every probe and returns the crash disk the
    next cycle continues from (same disks as [crash_disk], computed incrementally) *)
-Fixpoint walk (mac : bytes -> bytes) (d : disk) (w : wstate) (ops : list op) (idx : nat)
-              (probes : list probe) (nxt : nat * nat * nat) : bool * disk :=
+Fixpoint walk (mac : bytes -> bytes) (d : disk) (w : wstate) (ops : list op) (idx : N)
+              (probes : list probe) (nxt : N * nat * nat) : bool * disk :=
   match ops with
   | [] => (probes_at mac d [] idx probes, d)
   | o :: tl =>
       let '(acts, w') := x_op_actions mac d w o in
       let ok_here := probes_at mac d acts idx probes in
-      let '(ok_rest, dn) := walk mac (exec d acts) w' tl (S idx) probes nxt in
+      let '(ok_rest, dn) := walk mac (exec d acts) w' tl (idx + 1) probes nxt in
       (ok_here && ok_rest,
-       let '(i, a, b) := nxt in if Nat.eqb i idx then exec d (cut acts a b) else dn)
+       let '(i, a, b) := nxt in if i =? idx then exec d (cut acts a b) else dn)
   end.
 
 Fixpoint cycles_ok (mac : bytes -> bytes) (d : disk) (cs : list cycle) : bool :=
@@ -677,8 +680,8 @@ Definition acked_id (c : N) (ops : list op) : N :=
                   (c', match o with OUpsert _ _ _ | ODelete _ _ => c' | _ => best end)) ops (c, c)).
 Definition probe_prop (start : state) (start_next : N) (ops : list op) (p : probe) : bool :=
   let '(i, a, b, (ls, st, nxt, sts)) := p in
-  (state_eqb st (apply_ops start (firstn i ops)) || state_eqb st (apply_ops start (firstn (S i) ops))) &&
-  (acked_id (start_next - 1) (firstn i ops) <? nxt).
+  (state_eqb st (apply_ops start (firstn (N.to_nat i) ops)) || state_eqb st (apply_ops start (firstn (S (N.to_nat i)) ops))) &&
+  (acked_id (start_next - 1) (firstn (N.to_nat i) ops) <? nxt).
 Fixpoint cycles_prop (start : state) (start_next : N) (cs : list cycle) : bool :=
   match cs with
   | [] => true
